@@ -14,6 +14,7 @@ import re
 
 from . import taint
 from .absint import FnEval
+from . import descr
 from .mir import Body, operand_local, const_int
 from .report import Finding
 from .ctflow import norm_name
@@ -39,88 +40,55 @@ class GatePolicy(taint.Policy):
 
     def __init__(self, facts):
         self.f = facts
-        self.evals = {}
+        self.descs = {}
         self.ordinals = {}
+        self.retmemo = {}
+        self.retbusy = set()
+        self.eng = None
 
-    def ev(self, eng, fn):
-        e = self.evals.get(fn["id"])
-        if e is None:
-            e = FnEval(self.f, eng.body(fn))
-            self.evals[fn["id"]] = e
-        return e
+    def describer(self, eng, fn):
+        d = self.descs.get(fn["id"])
+        if d is None:
+            d = descr.Describer(self.f, eng.body(fn), rets=lambda fid: self.ret_desc(eng, fid))
+            self.descs[fn["id"]] = d
+        return d
+
+    def ret_desc(self, eng, fid):
+        """Descriptor (in the callee's own parameter terms) of the integer a local function returns."""
+        if fid in self.retmemo:
+            return self.retmemo[fid]
+        if fid in self.retbusy:
+            return None
+        fn = self.f.fns.get(fid)
+        if fn is None:
+            return None
+        rt = self.f.ty(fn["locals"][0][0])
+        if rt.get("k") not in ("uint", "int"):
+            self.retmemo[fid] = None
+            return None
+        self.retbusy.add(fid)
+        try:
+            d = self.describer(eng, fn).value_of(["cp", [0]])
+        finally:
+            self.retbusy.discard(fid)
+        if d is not None and not descr.mentions_input(d):
+            d = None
+        self.retmemo[fid] = d
+        return d
 
     def interesting_sink(self, kind):
         return False
 
-    # provenance of a slice/array reference operand: "param[a..b]" / "param" / None
-    def provenance(self, eng, fn, op, depth=0):
-        ev = self.ev(eng, fn)
-        b = ev.b
-        if depth > 12 or op[0] not in ("cp", "mv") or len(op[1]) != 1:
-            return None
-        l = op[1][0]
-        if l != 0 and l <= fn["argc"]:
-            return fn["locals"][l][1] or "_%d" % l
-        d = b.single_def(l)
-        if not d:
-            return None
-        if d[2] == "A":
-            rv = d[3][2]
-            if rv[0] == "ref":
-                pl = rv[2]
-                if len(pl) == 2 and pl[1] == "*":
-                    return self.provenance(eng, fn, ["cp", [pl[0]]], depth + 1)
-                if len(pl) == 1:
-                    # reference to a local array: follow copies into it?  name it
-                    return self.local_origin(eng, fn, pl[0], depth + 1)
-                return None
-            if rv[0] in ("use",):
-                return self.provenance(eng, fn, rv[1], depth + 1)
-            if rv[0] == "cast":
-                return self.provenance(eng, fn, rv[2], depth + 1)
-            return None
-        t = d[3]
-        name = t[1]["f"]
-        if "ops::Index<I> for [T" in name or "ops::IndexMut<I> for [T" in name or "Vec<T, A> as core::ops::Index" in name:
-            base = self.provenance(eng, fn, t[2][0], depth + 1)
-            if base is None:
-                return None
-            rng = ev.range_of(t[2][1])
-            if rng is None:
-                return base + "[?]"
-            kind, a, c = rng
-
-            def fmt(iv):
-                if iv is None:
-                    return "?"
-                return str(int(iv[0])) if iv[0] == iv[1] else "?"
-            if kind == "full":
-                return base
-            if kind == "range":
-                return "%s[%s..%s]" % (base, fmt(a), fmt(c))
-            if kind == "from":
-                return "%s[%s..]" % (base, fmt(a))
-            if kind in ("to", "toinc"):
-                return "%s[..%s%s]" % (base, "=" if kind == "toinc" else "", fmt(c))
-        if name.endswith("::as_ref") or "Deref>::deref" in name or name.endswith("try_from"):
-            return self.provenance(eng, fn, t[2][0], depth + 1)
-        if name.endswith("::unwrap") or name.endswith("::expect"):
-            return self.provenance(eng, fn, t[2][0], depth + 1)
-        if t[1]["l"] and re.search(r"::(bswap32|bswap)$", norm_name(name)):
-            p = self.provenance(eng, fn, t[2][0], depth + 1)
-            return "bswap(%s)" % p if p else None
-        return None
-
-    def value_origin(self, eng, fn, op, depth):
-        """'res:<callee>(<provs>)' if a by-value / by-reference operand is (a copy of) a tracked call's result."""
+    def res_of(self, eng, fn, op, depth=0):
+        """("res", callee, args) if a by-value / by-reference operand is (a copy of) a tracked call's result."""
         if depth > 10 or op[0] not in ("cp", "mv"):
             return None
         pl = op[1]
-        ev = self.ev(eng, fn)
+        dsc = self.describer(eng, fn)
         l = pl[0]
         if l != 0 and l <= fn["argc"] and len(pl) == 1:
             return None
-        d = ev.b.single_def(l)
+        d = dsc.b.single_def(l)
         if not d:
             return None
         if d[2] == "call":
@@ -129,39 +97,27 @@ class GatePolicy(taint.Policy):
             if t[1]["l"] and GATE_CALLEE.fullmatch(nn):
                 ps = []
                 for a in t[2]:
-                    if a[0] in ("cp", "mv") and len(a[1]) == 1:
-                        td = self.f.ty(fn["locals"][a[1][0]][0])
-                        if td.get("k") in ("ref", "ptr"):
-                            inner = self.f.ty(td["to"])
-                            if inner.get("k") in ("slice", "array"):
-                                ps.append(self.provenance(eng, fn, a) or "?")
-                return "res:%s(%s)" % (nn.split("::")[-1], ",".join(ps))
+                    sl = self.slice_arg(eng, fn, a)
+                    if sl is not None:
+                        ps.append(sl)
+                return ("res", nn.split("::")[-1], tuple(ps))
             return None
         rv = d[3][2]
         if rv[0] == "use":
-            return self.value_origin(eng, fn, rv[1], depth + 1)
+            return self.res_of(eng, fn, rv[1], depth + 1)
         if rv[0] == "ref":
-            return self.value_origin(eng, fn, ["cp", rv[2]], depth + 1)
+            return self.res_of(eng, fn, ["cp", rv[2]], depth + 1)
         return None
 
-    def local_origin(self, eng, fn, l, depth):
-        """Name an array local: by debug name, or by what is copied into it."""
-        n = fn["locals"][l][1]
-        ev = self.ev(eng, fn)
-        d = ev.b.single_def(l)
-        if d and d[2] == "call":
-            nm = d[3][1]["f"]
-            if d[3][1]["l"] and re.search(r"::(bswap32|bswap)$", norm_name(nm)):
-                p = self.provenance(eng, fn, d[3][2][0], depth + 1)
-                if p:
-                    return "bswap(%s)" % p
-        if d and d[2] == "A" and d[3][2][0] == "use" and d[3][2][1][0] in ("cp", "mv"):
-            src = d[3][2][1][1]
-            if len(src) == 2 and src[1] == "*":
-                p = self.provenance(eng, fn, ["cp", [src[0]]], depth + 1)
-                if p:
-                    return "*" + p
-        return "local:" + (n or "_%d" % l)
+    def slice_arg(self, eng, fn, op):
+        """Slice descriptor if the operand is a reference to a byte/word slice or array."""
+        if op[0] in ("cp", "mv") and len(op[1]) == 1:
+            td = self.f.ty(fn["locals"][op[1][0]][0])
+            if td.get("k") in ("ref", "ptr"):
+                inner = self.f.ty(td["to"])
+                if inner.get("k") in ("slice", "array") and self.f.ty(inner["elem"]).get("k") == "uint":
+                    return self.describer(eng, fn).slice_of(op) or ("l", "?")
+        return None
 
     def call_labels(self, eng, fn, bi, callee, argv):
         name = callee["f"]
@@ -178,30 +134,29 @@ class GatePolicy(taint.Policy):
             return taint.EMPTY
         provs = []
         for (_l, _p, op) in argv:
-            if op[0] in ("cp", "mv") and len(op[1]) == 1:
-                td = self.f.ty(fn["locals"][op[1][0]][0])
-                if td.get("k") in ("ref", "ptr"):
-                    inner = self.f.ty(td["to"])
-                    if inner.get("k") in ("slice", "array") and self.f.ty(inner["elem"]).get("k") == "uint":
-                        provs.append(self.provenance(eng, fn, op) or "?")
-                        continue
-                vp = self.value_origin(eng, fn, op, 0)
-                if vp:
-                    provs.append(vp)
+            sl = self.slice_arg(eng, fn, op)
+            if sl is not None:
+                provs.append(sl)
+                continue
+            vp = self.res_of(eng, fn, op, 0)
+            if vp:
+                provs.append(vp)
         short = "::".join(nn.split("::")[-2:])
         encl = "::".join(norm_name(fn["name"]).split("::")[-2:])
-        # ordinal of this call site among the calls to the same callee in the enclosing function
         key = (fn["id"], short)
         om = self.ordinals.setdefault(key, {})
         if bi not in om:
             om[bi] = None
             for i, b_ in enumerate(sorted(om)):
                 om[b_] = i
-        return frozenset([("call", short, ",".join(provs), encl, (fn["id"], short, bi))])
+        return frozenset([("call", short, tuple(provs), encl, (fn["id"], short, bi))])
+
+
+FACT_TAGS = ("call", "cmp", "cmpm")
 
 
 class GateAnalysis(taint.FnAnalysis):
-    """Adds comparison-fact labels (lencmp / elemcmp) at BinaryOp comparisons."""
+    """Adds comparison-fact labels at BinaryOp comparisons and re-expresses callee facts in caller terms."""
 
     def assign(self, place, rv, st, ctrl, line):
         if rv[0] == "bin" and rv[1] in ("Eq", "Ne", "Lt", "Le", "Gt", "Ge"):
@@ -212,139 +167,77 @@ class GateAnalysis(taint.FnAnalysis):
         super().assign(place, rv, st, ctrl, line)
 
     def exec_block(self, bi, st):
-        # `match slice.len() { 33 => .. }`: the switch itself is the length test
+        # `match slice.len() { 33 => .. }` / `match word { .. }`: the switch itself is the test
         t = self.body.blocks[bi]["t"]
         if t[0] == "switch":
-            ev = self.pol.ev(self.eng, self.fn)
-            root = ev.len_root(t[1])
-            if root is not None:
-                vals = ",".join(str(int(v)) for v, _b in t[2])
-                lab = ("lencmp", self.fn["locals"][root][1] or "_%d" % root, "match", vals)
-                self.disc[bi] = self.disc.get(bi, taint.EMPTY) | frozenset([lab])
+            dsc = self.pol.describer(self.eng, self.fn)
+            td = self.f.ty(t[5]) if len(t) > 5 else {}
+            if td.get("k") in ("uint", "int"):
+                D = dsc.value_of(t[1])
+                if D is not None and descr.mentions_input(D):
+                    vals = ",".join(str(int(v)) for v, _b in t[2])
+                    self.disc[bi] = self.disc.get(bi, taint.EMPTY) | frozenset([("cmpm", D, "match", vals)])
         super().exec_block(bi, st)
 
     def cmp_label(self, rv):
-        ev = self.pol.ev(self.eng, self.fn)
-        fn = self.fn
+        dsc = self.pol.describer(self.eng, self.fn)
         for x, y, flip in ((rv[2], rv[3], False), (rv[3], rv[2], True)):
             c = const_int(y)
             if c is None:
-                iv = ev.op_ival(y)
+                iv = dsc.ev.op_ival(y)
                 if iv is not None and iv[0] == iv[1]:
                     c = int(iv[0])
             if c is None:
+                c = self.sym_const(y, dsc)
+            if c is None:
+                continue
+            if const_int(x) is not None:
                 continue
             op = rv[1]
             if flip:
                 op = {"Eq": "Eq", "Ne": "Ne", "Lt": "Gt", "Le": "Ge", "Gt": "Lt", "Ge": "Le"}[op]
-            root = ev.len_root(x)
-            if root is not None:
-                return ("lencmp", fn["locals"][root][1] or "_%d" % root, op, str(c))
-            e = self.elem_of(x, ev, 0)
-            if e is not None:
-                return ("elemcmp", "%s[%s]" % e, op, str(c))
-            le = self.len_expr(x, ev)
-            if le is not None:
-                return ("lencmp", le, op, str(c))
-            wv = self.word_of(x, ev, 0)
-            if wv is not None:
-                return ("elemcmp", wv, op, str(c))
+            D = dsc.value_of(x)
+            if D is not None and D[0] != "k" and descr.mentions_input(D):
+                return ("cmp", D, op, str(c))
         return None
 
-    def word_of(self, op, ev, depth):
-        """'be(param[a..b])' if op is an integer decoded from a fixed sub-slice of a parameter."""
-        if depth > 8 or op[0] not in ("cp", "mv") or len(op[1]) != 1:
-            return None
-        d = ev.b.single_def(op[1][0])
-        if not d:
-            return None
-        if d[2] == "A":
-            rv = d[3][2]
-            if rv[0] == "use":
-                return self.word_of(rv[1], ev, depth + 1)
-            if rv[0] == "cast" and rv[1] == "IntToInt":
-                return self.word_of(rv[2], ev, depth + 1)
-            return None
-        t = d[3]
-        nm = t[1]["f"]
-        m = re.search(r"::from_(be|le)_bytes$", nm)
-        if not m:
-            return None
-        a = t[2][0]
-        # argument is `*ref` of try_from(..).unwrap(): chase the deref'd array back to its slice
-        if a[0] in ("cp", "mv") and len(a[1]) == 1:
-            dd = ev.b.single_def(a[1][0])
-            if dd and dd[2] == "A" and dd[3][2][0] == "use":
-                src = dd[3][2][1]
-                if src[0] in ("cp", "mv") and len(src[1]) == 2 and src[1][1] == "*":
-                    p = self.pol.provenance(self.eng, self.fn, ["cp", [src[1][0]]])
-                    if p:
-                        return "%s(%s)" % (m.group(1), p)
-        return None
-
-    def key_str(self, key, ev):
-        t = key[0]
-        if t == "k":
-            return str(key[1])
-        if t == "len":
-            return "len(%s)" % (self.fn["locals"][key[1]][1] or "_%d" % key[1])
-        if t == "l":
-            # loop variable of a range iterator?
-            d = ev.b.single_def(key[1])
+    def sym_const(self, op, dsc, depth=0):
+        """'sym:NAME' for an operand that is (a copy of) a compile-time constant the compiler left symbolic
+        (associated consts of generic types such as Self::ENC_LEN)."""
+        if op[0] == "k" and op[1] is None and len(op) > 3 and isinstance(op[3], dict):
+            nm = op[3].get("item") or op[3].get("sym") or "?"
+            return "sym:" + re.sub(r"[^A-Za-z0-9_]", "", nm.split("::")[-1])
+        if depth < 6 and op[0] in ("cp", "mv") and len(op[1]) == 1:
+            d = dsc.b.single_def(op[1][0])
             if d and d[2] == "A" and d[3][2][0] == "use":
-                o = d[3][2][1]
-                if o[0] in ("cp", "mv") and len(o[1]) == 3 and o[1][1][0] == "d":
-                    return "i"
-            n = self.fn["locals"][key[1]][1]
-            if key[1] != 0 and key[1] <= self.fn["argc"]:
-                return n or "_%d" % key[1]
-            return "v"
-        if t == "cast":
-            return self.key_str(key[2], ev)
-        if t == "?":
-            return "?"
-        if len(key) == 3:
-            return "(%s %s %s)" % (self.key_str(key[1], ev), t.replace("Unchecked", ""), self.key_str(key[2], ev))
-        return "?"
-
-    def len_expr(self, op, ev):
-        reads = []
-        key = ev.expr_key(op, reads)
-        s_ = self.key_str(key, ev)
-        if "len(" in s_ and "v" not in re.sub(r"len\([^)]*\)", "", s_) and "?" not in s_:
-            return s_
+                return self.sym_const(d[3][2][1], dsc, depth + 1)
         return None
 
-    def elem_of(self, op, ev, depth):
-        """(param name, const index) if op is an unmodified copy / widening cast of param[const]."""
-        if depth > 8 or op[0] not in ("cp", "mv"):
-            return None
-        pl = op[1]
-        if len(pl) == 3 and pl[1] == "*" and pl[2][0] == "i":
-            root = ev.ref_root(["cp", [pl[0]]])
-            iv = ev.ival(pl[2][1])
-            if root is not None and iv is not None and iv[0] == iv[1]:
-                return (self.fn["locals"][root][1] or "_%d" % root, int(iv[0]))
-            if root is not None:
-                key = ev.expr_key(["cp", [pl[2][1]]], [])
-                return (self.fn["locals"][root][1] or "_%d" % root, self.key_str(key, ev))
-            return None
-        if len(pl) == 3 and pl[1] == "*" and pl[2][0] == "c":
-            root = ev.ref_root(["cp", [pl[0]]])
-            if root is not None and not pl[2][3]:
-                return (self.fn["locals"][root][1] or "_%d" % root, pl[2][1])
-            return None
-        if len(pl) != 1:
-            return None
-        d = ev.b.single_def(pl[0])
-        if not d or d[2] != "A":
-            return None
-        rv = d[3][2]
-        if rv[0] == "use":
-            return self.elem_of(rv[1], ev, depth + 1)
-        if rv[0] == "cast" and rv[1] == "IntToInt":
-            return self.elem_of(rv[2], ev, depth + 1)
-        return None
+    def subst(self, labels, argv, st):
+        out = super().subst(frozenset(l for l in labels if not (isinstance(l, tuple) and l and l[0] in FACT_TAGS)), argv, st)
+        facts_ = [l for l in labels if isinstance(l, tuple) and l and l[0] in FACT_TAGS]
+        if not facts_:
+            return out
+        dsc = self.pol.describer(self.eng, self.fn)
+        args = [a[2] for a in argv]
+        extra = set()
+        for l in facts_:
+            if l[0] in ("cmp", "cmpm"):
+                D = dsc.subst_value(l[1], args)
+                if D is None or not descr.mentions_input(D):
+                    continue   # no longer about this function's inputs
+                extra.add((l[0], D, l[2], l[3]))
+            else:
+                na = []
+                for x in l[2]:
+                    if x is None:
+                        na.append(None)
+                    elif x[0] in ("p", "l", "bswap", "sub"):
+                        na.append(dsc.subst_slice(x, args) or ("l", "?"))
+                    else:
+                        na.append(dsc.subst_value(x, args))
+                extra.add(("call", l[1], tuple(na), l[3], l[4]))
+        return out | frozenset(extra)
 
 
 class GateEngine(taint.Engine):
@@ -366,17 +259,25 @@ class GateEngine(taint.Engine):
         return s
 
 
-def label_str(l, pol=None):
+def label_str(l, pol=None, fn=None):
     if l[0] == "call":
         o = 0
         if pol is not None:
             fid, short, bi = l[4]
             o = pol.ordinals.get((fid, short), {}).get(bi, 0)
-        return "call:%s(%s)@%s#%d" % (l[1], l[2], l[3], o)
-    if l[0] == "lencmp":
-        return "lencmp:%s %s %s" % (l[1], l[2], l[3])
-    if l[0] == "elemcmp":
-        return "elemcmp:%s %s %s" % (l[1], l[2], l[3])
+        return "call:%s(%s)@%s#%d" % (l[1], ",".join(descr.render_arg(x, fn) for x in l[2] if x is not None), l[3], o)
+    if l[0] in ("cmp", "cmpm"):
+        D = l[1]
+        txt = descr.render_value(D, fn)
+        kind = "valcmp"
+        if D[0] == "len":
+            kind = "lencmp"
+            txt = descr.render_slice(D[1], fn)
+        elif "len(" in txt and not re.search(r"\b(be|le)\(|\w\[", txt.replace("len(", "")):
+            kind = "lencmp"
+        elif D[0] in ("elem", "be", "le"):
+            kind = "elemcmp"
+        return "%s:%s %s %s" % (kind, txt, l[2], l[3])
     return None
 
 
@@ -387,29 +288,29 @@ def result_labels(summ):
     return out
 
 
-def gate_strings(summ, include_out=False, pol=None):
+def gate_strings(summ, include_out=False, pol=None, fn=None):
     labs = result_labels(summ)
     if include_out:
         for v in summ.out.values():
             labs |= v
     out = set()
     for l in labs:
-        if isinstance(l, tuple) and l and l[0] in ("call", "lencmp", "elemcmp"):
-            s = label_str(l, pol)
+        if isinstance(l, tuple) and l and l[0] in FACT_TAGS:
+            s = label_str(l, pol, fn)
             if s:
                 out.add(s)
     return out
 
 
-def field_strings(summ, field, pol):
+def field_strings(summ, field, pol, fn=None):
     labs = set()
     for path, v in summ.ret_cells.items():
         if not path or path[0] == field:
             labs |= v
     out = set()
     for l in labs:
-        if isinstance(l, tuple) and l and l[0] in ("call", "lencmp", "elemcmp"):
-            s_ = label_str(l, pol)
+        if isinstance(l, tuple) and l and l[0] in FACT_TAGS:
+            s_ = label_str(l, pol, fn)
             if s_:
                 out.add(s_)
     return out
@@ -478,6 +379,51 @@ def check_call_args(facts, run, prop, table, cfg):
     return n
 
 
+def check_failmask(facts, run, prop, table, cfg, eng):
+    """G8 (dependence form): status 0 must force the documented failure value, hence every data-dependent leaf
+    of the output depends on every check fact the returned status depends on."""
+    n = 0
+    for ent in table.get("failmask", []):
+        if prop not in ent["props"]:
+            continue
+        matched = [fn for fn in facts.fns.values() if re.fullmatch(ent["fn"], norm_name(fn["name"]))]
+        if not matched:
+            run.oblige(ok=False)
+            run.add(Finding("G0", ent["fn"], "gates: anchor function %s not found" % ent["fn"], config=cfg, prop=prop))
+        for fn in matched:
+            rt = facts.ty(fn["locals"][0][0])
+            if not (rt.get("k") == "uint" and rt.get("bits") == 32):
+                continue
+            n += 1
+            summ = eng.summary(fn)
+
+            def fset(labels):
+                return set(label_str(l, eng.policy, fn) for l in labels if isinstance(l, tuple) and l and l[0] in FACT_TAGS)
+            rf = fset(result_labels(summ))
+            cells = {p_: l for (i, p_), l in summ.out.items() if i == 1}
+            leaves = [p_ for p_ in cells if not any(q != p_ and len(q) > len(p_) and taint.is_prefix(p_, q) for q in cells)]
+            bad = None
+            for p_ in leaves:
+                labels = taint.EMPTY
+                for q, l in cells.items():
+                    if taint.is_prefix(q, p_) or (len(q) == len(p_) and taint.is_prefix(q, p_)):
+                        labels |= l
+                if not any(isinstance(l, tuple) and l and l[0] in ("m", "v") for l in labels):
+                    continue
+                miss = rf - fset(labels)
+                if miss:
+                    bad = (p_, sorted(miss))
+                    break
+            run.oblige(ok=bad is None)
+            if bad:
+                run.add(Finding("G8", norm_name(fn["name"]),
+                                "gates G8: in %s (%s:%s) output component %s does not depend on %s, on which the returned status depends: "
+                                "a failure reported through the status would leave that component un-masked -- %s" % (
+                                    fn["name"], fn["file"], fn["line"], list(bad[0]), bad[1][0], ent["why"]),
+                                config=cfg, site="%s:%s" % (fn["file"], fn["line"]), prop=prop))
+    return n
+
+
 class _Plain(taint.Policy):
     implicit = False
 
@@ -535,7 +481,7 @@ def run_gates(facts, run, prop):
         for fn in matched:
             n_fns += 1
             summ = eng.summary(fn)
-            have_all = gate_strings(summ, include_out=ent.get("include_out", False), pol=eng.policy)
+            have_all = gate_strings(summ, include_out=ent.get("include_out", False), pol=eng.policy, fn=fn)
             for g in ent["gates"]:
                 if g.get("props") and prop not in g["props"] and prop != "C18":
                     continue
@@ -543,7 +489,7 @@ def run_gates(facts, run, prop):
                 pat = subst_consts(facts, fn, g["src"])
                 have = have_all
                 if "field" in g:
-                    have = field_strings(summ, g["field"], eng.policy)
+                    have = field_strings(summ, g["field"], eng.policy, fn)
                 ok = len([h for h in have if re.fullmatch(pat, h)]) >= g.get("min", 1)
                 run.oblige(ok=ok)
                 if ok:
@@ -566,6 +512,7 @@ def run_gates(facts, run, prop):
                                     config=cfg, site="%s:%s" % (fn["file"], fn["line"]), prop=prop))
     n_ca = check_call_args(facts, run, prop, table, cfg)
     n_ca += check_independent(facts, run, prop, table, cfg)
+    n_ca += check_failmask(facts, run, prop, table, cfg, eng)
     if prop == "C16":
         from . import lmsstate
         lmsstate.run_lmsstate(facts, run, prop)
